@@ -1,10 +1,17 @@
 import ComposeVerif.Model.Template
 import ComposeVerif.Spec.Template
 import ComposeVerif.Gen.Consts
+import ComposeVerif.Lemmas.TemplateMore
+import ComposeVerif.Neg.C07
 /-!
 # C07 — variable substitution follows the Compose interpolation grammar
 
-Property theorems only (helper lemmas live in `Lemmas/`).
+Property theorems only (helper lemmas live in `Lemmas/Template*.lean`).
+
+`subst` is the executable model of `template.Substitute` (Model/Template.lean, tied to the Go
+function by the differential correspondence of `harness/c07.go`); `renderL`/`evalOut`/`WF` are the
+grammar, its meaning and the unambiguous concrete syntax (Spec/Template.lean).  `seq a b` is the
+sequential composition of two outcomes: concatenation, the first error wins.
 -/
 namespace CV.Template
 
@@ -23,5 +30,200 @@ theorem opTable_is_modelled :
       ["requiredErrorWhenEmptyOrUnset", "requiredErrorWhenUnset", "defaultWhenEmptyOrUnset",
        "defaultWhenUnset", "defaultWhenNotEmpty", "defaultWhenSet"] := by
   decide
+
+/-! ## Totality of the model: fuel and the panic branch -/
+
+/-- `2·|s|+1` units of fuel are enough for the scan of `s`, whatever the accumulator and pending error -/
+theorem fuel_sufficient (env : Env) (s acc : Str) (fe : Option Err) (f : Nat) (h : 2 * s.length + 1 ≤ f) :
+    scan f env s acc fe ≠ .panic .fuel :=
+  (fuel_suff_aux env f).1 s acc fe h
+
+/-- the result does not depend on how much (sufficient) fuel is supplied -/
+theorem fuel_irrelevant (env : Env) (s acc : Str) (fe : Option Err) (f g : Nat)
+    (hf : 2 * s.length + 1 ≤ f) (hg : 2 * s.length + 1 ≤ g) : scan f env s acc fe = scan g env s acc fe :=
+  scan_fuel_eq env s acc fe f g hf hg
+
+/-- `Substitute` never panics: in particular the re-match of the text truncated at the first balanced `}`
+    (`matchGroups(FindStringSubmatch(..))`, which would index a nil slice) always succeeds -/
+theorem subst_never_panics (env : Env) (s : Str) (p : PanicSite) : subst env s ≠ .panic p :=
+  subst_never_panics_aux env s p
+
+/-! ## Text outside substitutions -/
+
+/-- text without `$` is copied verbatim -/
+theorem subst_lit (env : Env) (s : Str) (hs : ∀ c ∈ s, c ≠ '$') : subst env s = .ok s := by
+  have := run_lit env s [] hs
+  rw [List.append_nil, run_nil] at this
+  rw [subst_eq_run, this, seq_nil_ok]
+
+/-- `$$` yields one literal `$`, wherever it stands after a well-formed prefix -/
+theorem subst_dollar_dollar (env : Env) (t : List Seg) (X : Str) (h : WF t = true) :
+    subst env (renderL t ++ '$' :: '$' :: X) = seq (evalOut env t) (seq (.ok ['$']) (subst env X)) := by
+  rw [subst_eq_run, subst_eq_run, list_run env t false h _ rfl, run_esc]
+
+/-- escaping every `$` as `$$` protects arbitrary text (used by C08) -/
+theorem subst_escape (env : Env) (s : Str) : subst env (escapeDollars s) = .ok s := by
+  rw [subst_eq_run]; exact run_escapeDollars env s
+
+/-- a `$` not followed by `$`, `{` or a name-start character is copied verbatim
+    (after any well-formed prefix, before any text at all) -/
+theorem subst_lone_dollar (env : Env) (t : List Seg) (X : Str) (h : WF t = true) (hX : loneAfter X) :
+    subst env (renderL t ++ '$' :: X) = seq (evalOut env t) (seq (.ok ['$']) (subst env X)) := by
+  rw [subst_eq_run, subst_eq_run, list_run env t false h _ rfl, run_lone env X hX]
+
+/-! ## Malformed substitutions -/
+
+/-- `${` not followed by `NAME}` or `NAME op … }` on the same line is an error: after a well-formed
+    prefix the result is the prefix's own (earlier) error if it has one, and `invalid template` otherwise —
+    whatever follows -/
+theorem subst_malformed_err (env : Env) (t : List Seg) (r : Str) (h : WF t = true) (hbad : ¬ WellFormedBrace r) :
+    subst env (renderL t ++ '$' :: '{' :: r) = seq (evalOut env t) (.err .invalid) := by
+  rw [subst_eq_run, list_run env t false h _ rfl, run_malformed env r hbad]
+
+/-- … in particular it is always an error -/
+theorem subst_malformed_is_err (env : Env) (t : List Seg) (r : Str) (h : WF t = true) (hbad : ¬ WellFormedBrace r) :
+    ∃ e, subst env (renderL t ++ '$' :: '{' :: r) = .err e := by
+  rw [subst_malformed_err env t r h hbad]
+  have hnp := evalOut_ne_panic env t
+  cases hev : evalOut env t with
+  | ok s => exact ⟨.invalid, rfl⟩
+  | err e => exact ⟨e, rfl⟩
+  | panic p => exact absurd hev (hnp p)
+
+/-- `WellFormedBrace` is exact: the regular expression takes its `invalid` alternative after `${`
+    precisely on the texts that are not `NAME}` / `NAME op … }`-on-the-same-line -/
+theorem invalid_alternative_iff (r : Str) :
+    (∃ m rest, matchDollar ('$' :: '{' :: r) = some (.invalid, m, rest)) ↔ ¬ WellFormedBrace r := by
+  rw [← matchBraced_invalid_iff, matchDollar_brace]
+  constructor
+  · rintro ⟨m, rest, h⟩
+    injection h with h
+    exact (Prod.mk.inj h).1
+  · intro h
+    exact ⟨_, _, by rw [h]⟩
+
+/-! ## The refinement -/
+
+/-- **Refinement.** On the concrete syntax of every well-formed template — any nesting depth, any size —
+    `Substitute` computes exactly what the grammar says (`evalOut`): values or the empty string for
+    `$VAR`/`${VAR}`, the operator table `opSpec` for the six operators with the argument interpolated
+    recursively, `$` for `$$`, literal text copied, first error in left-to-right order. -/
+theorem subst_render (env : Env) (t : List Seg) (h : WF t = true) : subst env (renderL t) = evalOut env t := by
+  rw [subst_eq_run]; exact run_render env t h
+
+/-- The grammar at full strength (`WFml`: a newline may occur inside an operator argument) is *not*
+    satisfied — `Neg.subst_render_multiline_false`, finding `grammar:newline-in-argument`.  This is the
+    provable part: `WF` is `WFml` plus "no newline inside an operator argument". -/
+theorem subst_render_multiline_partial (env : Env) (t : List Seg) (h : WF t = true) :
+    WFml t = true ∧ subst env (renderL t) = evalOut env t :=
+  ⟨list_wf_imp_wfML t false h, subst_render env t h⟩
+
+/-- compositional form: a well-formed prefix is evaluated by the grammar and the scan of the remaining text
+    (arbitrary, possibly malformed) starts afresh after it -/
+theorem subst_render_append (env : Env) (t : List Seg) (X : Str) (h : WF t = true) (hX : noNameHead X = true) :
+    subst env (renderL t ++ X) = seq (evalOut env t) (subst env X) := by
+  rw [subst_eq_run, subst_eq_run]; exact list_run env t false h X hX
+
+/-- the operator table, one substitution: `${n op arg}` is `opSpec op` applied to the interpolated argument;
+    an error inside the argument is the result -/
+theorem subst_op (env : Env) (n : Str) (o : Op) (arg : List Seg) (hn : validName n = true) (harg : wfL true arg = true) :
+    subst env (Seg.op n o arg).render =
+      match evalOut env arg with
+      | .ok d => toOut (opSpec o n (env n) d)
+      | r => r := by
+  have hwf : WF [Seg.op n o arg] = true := by simp [WF, wfL, Seg.wf, hn, harg]
+  have := subst_render env [Seg.op n o arg] hwf
+  rw [renderL, renderL, List.append_nil] at this
+  rw [this, evalOut_cons, evalOut_nil, seq_nil_ok, ← opOut_eval]
+  unfold opOut
+  cases evalOut env arg with
+  | ok d => simp [applyOp_eq_opSpec]
+  | err e => rfl
+  | panic p => rfl
+
+/-- the rows of the property statement, spelled out: `d` is the interpolated argument -/
+theorem subst_op_table (env : Env) (n : Str) (arg : List Seg) (d : Str)
+    (hn : validName n = true) (harg : wfL true arg = true) (hd : evalOut env arg = .ok d) :
+    -- `${n:-arg}` / `${n-arg}`
+    ((env n = none ∨ env n = some []) → subst env (Seg.op n .colonDash arg).render = .ok d) ∧
+    (∀ v, env n = some v → v ≠ [] → subst env (Seg.op n .colonDash arg).render = .ok v) ∧
+    (env n = none → subst env (Seg.op n .dash arg).render = .ok d) ∧
+    (∀ v, env n = some v → subst env (Seg.op n .dash arg).render = .ok v) ∧
+    -- `${n:+arg}` / `${n+arg}`
+    (∀ v, env n = some v → v ≠ [] → subst env (Seg.op n .colonPlus arg).render = .ok d) ∧
+    ((env n = none ∨ env n = some []) → subst env (Seg.op n .colonPlus arg).render = .ok []) ∧
+    (∀ v, env n = some v → subst env (Seg.op n .plus arg).render = .ok d) ∧
+    (env n = none → subst env (Seg.op n .plus arg).render = .ok []) ∧
+    -- `${n:?arg}` / `${n?arg}`
+    ((env n = none ∨ env n = some []) → subst env (Seg.op n .colonQ arg).render = .err (.required n d)) ∧
+    (∀ v, env n = some v → v ≠ [] → subst env (Seg.op n .colonQ arg).render = .ok v) ∧
+    (env n = none → subst env (Seg.op n .q arg).render = .err (.required n d)) ∧
+    (∀ v, env n = some v → subst env (Seg.op n .q arg).render = .ok v) := by
+  have h := fun o => subst_op env n o arg hn harg
+  simp only [hd] at h
+  refine ⟨?_, ?_, ?_, ?_, ?_, ?_, ?_, ?_, ?_, ?_, ?_, ?_⟩
+  · rintro (h0 | h0) <;> rw [h, h0] <;> rfl
+  · intro v hv hne; rw [h, hv]; cases v with
+    | nil => exact absurd rfl hne
+    | cons c cs => rfl
+  · intro h0; rw [h, h0]; rfl
+  · intro v hv; rw [h, hv]; rfl
+  · intro v hv hne; rw [h, hv]; cases v with
+    | nil => exact absurd rfl hne
+    | cons c cs => rfl
+  · rintro (h0 | h0) <;> rw [h, h0] <;> rfl
+  · intro v hv; rw [h, hv]; rfl
+  · intro h0; rw [h, h0]; rfl
+  · rintro (h0 | h0) <;> rw [h, h0] <;> rfl
+  · intro v hv hne; rw [h, hv]; cases v with
+    | nil => exact absurd rfl hne
+    | cons c cs => rfl
+  · intro h0; rw [h, h0]; rfl
+  · intro v hv; rw [h, hv]; rfl
+
+/-- **Values are never expanded again**: a variable whose value is *any* text `v` — including text that
+    contains `$`, `${…}` or `$$` — contributes exactly `v`, in any well-formed context -/
+theorem subst_value_verbatim (env : Env) (n v : Str) (braced : Bool) (pre post : List Seg)
+    (hv : env n = some v) (h : WF (pre ++ Seg.var n braced :: post) = true) :
+    subst env (renderL (pre ++ Seg.var n braced :: post)) =
+      seq (evalOut env pre) (seq (.ok v) (evalOut env post)) := by
+  rw [subst_render env _ h, evalOut_append, evalOut_cons, Seg.eval, hv]; rfl
+
+/-- the same for a default that is itself a variable: `${n:-$m}` with `n` unset yields the value of `m` verbatim -/
+theorem subst_default_value_verbatim (env : Env) (n m v : Str) (hn : validName n = true) (hm : validName m = true)
+    (hnv : env n = none) (hv : env m = some v) :
+    subst env (Seg.op n .colonDash [Seg.var m true]).render = .ok v := by
+  have harg : wfL true [Seg.var m true] = true := by simp [wfL, Seg.wf, hm]
+  rw [subst_op env n .colonDash _ hn harg, evalOut_cons, evalOut_nil, seq_nil_ok, Seg.eval, hv]
+  simp [toOut, opSpec, hnv]
+
+/-! ## Non-vacuity -/
+
+example : WF [.lit "a}b\n".toList, .op "A".toList .colonDash [.lit "x".toList, .op "B".toList .q [.esc, .var "C".toList false]],
+              .lit "}".toList, .var "D".toList true, .var "E".toList false, .lit " z".toList] = true := by decide
+
+/-- a JSON / Go-template default followed by another substitution on the same line (the shape the `fix:` commit repairs) -/
+example : WF [.op "A".toList .colonDash [.lit "{{.N}} {}".toList], .lit " ".toList, .var "B".toList true] = true := by decide
+
+example (env : Env) (b : Str) (hA : env ['A'] = none) (hB : env ['B'] = some b) :
+    subst env "${A:-{}} ${B}".toList = .ok ("{} ".toList ++ b) := by
+  have := subst_render env [.op ['A'] .colonDash [.lit ['{', '}']], .lit [' '], .var ['B'] true] (by decide)
+  simpa [renderL, Seg.render, Op.str, evalOut, evalL, Seg.eval, opSpec, hA, hB] using this
+
+example : ¬ WellFormedBrace "A:x}".toList := by
+  rintro ⟨n, tail, hr, hn, hhead, h⟩
+  obtain ⟨c, cs, rfl, hc, hall⟩ := validName_cases hn
+  have hsp := spanName_name (c :: cs) tail hall ((noNameHead_iff tail).1 hhead)
+  rw [← hr] at hsp
+  have : spanName "A:x}".toList = ("A".toList, ":x}".toList) := by decide
+  rw [this] at hsp
+  injection hsp with h1 h2
+  subst h2
+  rcases h with h | ⟨o, r3, ho, _⟩
+  · simp at h
+  · cases o <;> simp [Op.str] at ho
+
+example : loneAfter " x".toList := by
+  intro c hc; simp at hc; subst hc; decide
 
 end CV.Template
